@@ -80,7 +80,8 @@ TIERS = {
         # the code as it is: the model is expected to exhibit the recorded findings
         "asis": [("gap", dict(GGap="FALSE", Profile=P("one"), NC=1, MaxSubs=1))],
         "edge": [("one", dict(Profile=P("one"), NC=1, MaxCommits=2, MaxSubs=2, **ASIS))],
-        "sim": [("mixed", dict(Profile=P("mixed"), MaxCommits=3, MaxRestores=1, Ttls="{FALSE, TRUE}", **ASIS), 60, 30)],
+        "sim": [("mixed", dict(Profile=P("mixed"), MaxCommits=3, MaxRestores=1, Ttls="{FALSE, TRUE}", **ASIS), 40, 30),
+                ("one-resume", dict(Profile=P("one"), MaxCommits=3, MaxSubs=3, MaxRestores=1, Ttls="{FALSE, TRUE}", **ASIS), 40, 30)],
         "rnd": (40, 50),
         "chunk": 10000,
     },
@@ -100,7 +101,8 @@ TIERS = {
                  ("acl", dict(Profile=P("acl"), NC=1, MaxCommits=2, MaxSubs=2, **ASIS))],
         "sim": [("mixed", dict(Profile=P("mixed"), MaxCommits=4, MaxRestores=1, Ttls="{FALSE, TRUE}", **ASIS), 100, 30),
                 ("health", dict(MaxCommits=4, MaxRestores=1, Ttls="{FALSE, TRUE}", **ASIS), 100, 30),
-                ("acl", dict(Profile=P("acl"), MaxCommits=4, MaxRestores=1, Ttls="{FALSE, TRUE}", **ASIS), 60, 30)],
+                ("acl", dict(Profile=P("acl"), MaxCommits=4, MaxRestores=1, Ttls="{FALSE, TRUE}", **ASIS), 60, 30),
+                ("one-resume", dict(Profile=P("one"), MaxCommits=4, MaxSubs=3, MaxRestores=1, Ttls="{FALSE, TRUE}", **ASIS), 150, 35)],
         "rnd": (120, 80),
         "chunk": 25000,
     },
